@@ -503,6 +503,21 @@ func RunC07(c *Ctx) {
 			idx++
 		}
 	}
+	// concurrent compactions of explicitly chosen disjoint / nested / overlapping ranges
+	// (two handles; one parked before each of its filesystem operations while the other
+	// runs): every commit of a compaction must leave the view unchanged (M-commit)
+	idx = e.explicitRanges(idx, false)
+	// a compaction parked inside its merge window while another handle compacts / adds
+	for ai, a := range []string{"compactall", "autocompact", "compactexpiry"} {
+		for bi, b := range []string{"compactall", "autocompact", "add,compactall", "add,add,autocompact"} {
+			for ri, rec := range []eng.Recipe{{60, 0, 0}, {200, 40, 0, 0}} {
+				if (c.Thorough() || (ai+bi+ri)%2 == 0) && c.Mine(idx) {
+					e.sweepPair("compaction-pair-sweep", idx, engCfg(ai+bi+ri), rec, a, b, "", true, false)
+				}
+				idx++
+			}
+		}
+	}
 }
 
 func sortedKeys(m map[string]bool) []string {
